@@ -82,6 +82,12 @@ def gen_writer_program(rng, x, kind="mixed", types=None, nsig=None, twr=False, m
         total = rng.choice([0, 1, nsdf - 1, nsdf, nsdf + 1, nspd, nspd + 1, 3 * nspd + 7]) if rng.random() < 0.15 else rng.randint(nsdf, max(nsdf + 1, min(maxlen, nspd * neps // max(1, nspd // nsdf) * 3 + 50)))
         if spd == 0:
             total = rng.randint(nsdf, 3 * nspd)
+        elif rng.random() < 0.2:
+            # just after a level-1 / level-2 / level-3 summary chunk filled up
+            c1 = neps * nsdf
+            c = rng.choice([c1, c1 * nsumdf, c1 * nsumdf, c1 * nsumdf * nsumdf])
+            if c <= maxlen * 6:
+                total = c * rng.choice([1, 1, 2]) + rng.choice([0, 1, nsdf - 1, nsdf, nspd, nspd + 1, nspd + nsdf + 1])
         sigs[g] = {"id": g, "src": rng.choice(src_ids), "dt": dt, "spd": spd, "sdf": sdf, "eps": eps, "sumdf": sumdf,
                    "adf": rng.choice([0, 10, 10, 12, 100]), "udf": rng.choice([0, 10, 10, 15, 100]),
                    "rate": rng.choice([1000, 1, 48000, 2000000, 1000000000]), "base": base, "tbase": rng.choice([0, 1700000000 * (1 << 30)]),
